@@ -519,10 +519,54 @@ if before != after: bad.append(["set_eccentricity changed a / n / P", before, af
 result = bad
 '''
 
+_HANDBACK_REPLAY = r'''
+import numpy as np, math, logging, warnings
+warnings.filterwarnings('ignore')
+from TidalPy.structures import build_world
+from TidalPy.structures.orbit import PhysicsOrbit
+logging.disable(logging.CRITICAL)
+cfg = args
+G = 6.6743e-11
+out = []
+star = build_world("55cnc"); host = build_world("earth_simple"); m1 = build_world("io_simple"); m2 = build_world("triton_simple")
+orbit = PhysicsOrbit(star, tidal_host=host, tidal_bodies=[m1, m2], host_tide_raiser=m2)
+for w, P in ((m1, 1.77), (m2, 3.55)):
+    orbit.set_state(w, orbital_period=P, eccentricity=0.01)
+orbit.set_orbital_period(host, 365.0, set_stellar_orbit=True)
+objs = orbit.tidal_objects
+f = lambda x: float(np.asarray(x).ravel()[0])
+for fac in (3.0, 0.25):
+    # the masses change (the stored n / P no longer belong to the stored a), then the stored value is handed straight back
+    target = host if cfg["stellar"] else m1
+    target.set_geometry(float(target.radius), float(target.mass) * fac)
+    kw = {"set_stellar_orbit": True} if cfg["stellar"] else {}
+    getter = {"set_semi_major_axis": "get_semi_major_axis", "set_orbital_frequency": "get_orbital_frequency", "set_orbital_period": "get_orbital_period"}[cfg["method"]]
+    gkw = {"for_stellar_orbit": True} if cfg["stellar"] else {}
+    stored = getattr(orbit, getter)(target, **gkw)
+    getattr(orbit, cfg["method"])(target, stored, **kw)
+    slot = 0 if cfg["stellar"] else objs.index(m1)
+    Mp = star.mass if cfg["stellar"] else host.mass
+    a, n, P = f(orbit.semi_major_axes[slot]), f(orbit.orbital_frequencies[slot]), f(orbit.orbital_periods[slot])
+    GM = G * (Mp + objs[slot].mass)
+    out.append({"mass_factor": fac, "slot": slot, "kepler_rel": abs(n * n * a ** 3 - GM) / GM, "period_rel": abs(P * 86400 * n - 2 * math.pi) / (2 * math.pi)})
+result = out
+'''
+
 
 def _replay_orbit(ob, res):
     import re
     from tpv import native
+    if "stored value handed back" in ob.oid:
+        m = re.search(r"::(set_\w+?)\[(\w+)(;stellar)?;stored value handed back\]", ob.oid)
+        if not m:
+            return dict(replayed=False, reason="cannot parse the scenario from the obligation id")
+        out = native.run(dict(code=_HANDBACK_REPLAY, args=dict(method=m.group(1), stellar=bool(m.group(3)))), timeout=900)
+        rec = dict(replayed=True, scenario=dict(method=m.group(1), stellar=bool(m.group(3)), history="mass x3 then x0.25 by set_geometry; after each, setter(world, getter(world))"), native=out)
+        try:
+            rec["confirmed"] = any(v["kepler_rel"] > 1e-9 or v["period_rel"] > 1e-9 for v in out["result"])
+        except Exception:
+            rec["confirmed"] = "exception" in out
+        return rec
     if "::get_" in ob.oid or "::set_eccentricity[" in ob.oid:
         out = native.run(dict(code=_GETTER_REPLAY), timeout=900)
         return dict(replayed=True, native=out, confirmed=bool(out.get("result")) or "exception" in out, what="every getter against the stored arrays for six signatures; a, n, P before / after set_eccentricity")
